@@ -896,13 +896,16 @@ impl Pt {
             return;
         }
         let mut off = off;
-        // a kernel client positions writes on an O_APPEND file at its idea of end-of-file
-        if flags as i32 & libc::O_APPEND != 0 {
+        // a kernel client positions writes on an O_APPEND file at its idea of end-of-file; with
+        // writeback caching it flushes dirty pages later and in any order, i.e. at arbitrary offsets
+        if flags as i32 & libc::O_APPEND != 0 && !self.writeback {
             off = sys::fstat(sfd).map(|s| s.st_size as u64).unwrap_or(0);
         }
+        // page-cache flushes of a writeback client carry no open flags (write_in.flags == 0)
+        let wflags = if self.writeback && flags as i32 & libc::O_APPEND != 0 { 0 } else { flags };
         let rep = self.send(
             out,
-            &mkreq("WRITE", nodeid, 0, 0, &[("fh", fh), ("offset", off), ("size", data.len() as u64), ("flags", flags as u64)], &[], data),
+            &mkreq("WRITE", nodeid, 0, 0, &[("fh", fh), ("offset", off), ("size", data.len() as u64), ("flags", wflags as u64)], &[], data),
         );
         let host = if self.no_open {
             // zero-message open: the server opens the inode O_RDWR for each write
@@ -1095,6 +1098,17 @@ impl Pt {
                         out.fail("host/setattr/mtime", format!("mtime set to {}.{} but the reply says {}.{}", s, n, a.mtime, a.mtimensec));
                     }
                 }
+                if let Some((_, None)) = times {
+                    // "now": the reference was stamped by the same kind of call a moment later
+                    if (a.mtime as i64 - st.st_mtime).abs() > 5 {
+                        out.fail("host/setattr/mtime-now", format!("mtime set to 'now' but the reply says {} (host reference {})", a.mtime, st.st_mtime));
+                    }
+                }
+                if let Some((None, _)) = times {
+                    if (a.atime as i64 - st.st_atime).abs() > 5 {
+                        out.fail("host/setattr/atime-now", format!("atime set to 'now' but the reply says {} (host reference {})", a.atime, st.st_atime));
+                    }
+                }
             }
         } else if rep.error == 0 || host.is_ok() {
             // effects diverged: keep the trees comparable as far as possible
@@ -1258,6 +1272,92 @@ impl Pt {
                 }
             }
         }
+    }
+
+    pub fn init_req(&self) -> crate::reqgen::Req {
+        let flags = FUSE_ALL & !self.cfg.client_withholds;
+        mkreq(
+            "INIT",
+            0,
+            0,
+            0,
+            &[("major", 7), ("minor", 38), ("max_readahead", 65536), ("flags", (flags & 0xffff_ffff) | c("FUSE_INIT_EXT")), ("flags2", flags >> 32)],
+            &[],
+            &[],
+        )
+    }
+
+    /// DESTROY + INIT: the client starts over, the server must have dropped everything
+    pub fn reinit(&mut self, out: &mut Outcome) {
+        let rep = self.send(out, &mkreq("DESTROY", 0, 0, 0, &[], &[], &[]));
+        if rep.nreplies != 1 || rep.error != 0 {
+            out.fail("handle/destroy/failed", format!("DESTROY answered {} ({} replies)", rep.error, rep.nreplies));
+        }
+        let root = self.nodes.remove(&1);
+        self.nodes.clear();
+        self.by_key.clear();
+        self.forgotten.clear();
+        for h in self.handles.iter_mut() {
+            h.live = false;
+        }
+        if let Some(r) = root {
+            self.by_key.insert(r.key, 1);
+            self.nodes.insert(1, r);
+        }
+        let req = self.init_req();
+        let rep = self.send(out, &req);
+        if rep.error != 0 {
+            out.fail("handle/reinit/failed", format!("INIT after DESTROY answered {}", rep.error));
+        }
+    }
+
+    /// a handle is usable only with the inode it was opened on and only until released
+    pub fn bad_handle(&mut self, out: &mut Outcome, hi: usize, other: u64) {
+        let Some(h) = self.handles.get(hi) else { return };
+        let (fh, nodeid, dir, live) = (h.fh, h.nodeid, h.dir, h.live);
+        let zero = if dir { self.no_opendir } else { self.no_open };
+        if zero || fh == 0 {
+            return;
+        }
+        let op = if dir { "READDIR" } else { "READ" };
+        if !live {
+            // released (or wiped by DESTROY): must be refused, unless the number was handed out again
+            if self.handles.iter().any(|x| x.live && x.fh == fh) {
+                return;
+            }
+            let rep = self.send(out, &mkreq(op, nodeid, 0, 0, &[("fh", fh), ("offset", 0), ("size", 4096)], &[], &[]));
+            if rep.error != -libc::EBADF {
+                out.fail("handle/use-after-release", format!("{} with a released handle answered {}", op, rep.error));
+            }
+        } else if other != nodeid && self.nodes.contains_key(&other) {
+            let rep = self.send(out, &mkreq(op, other, 0, 0, &[("fh", fh), ("offset", 0), ("size", 4096)], &[], &[]));
+            if rep.error != -libc::EBADF {
+                out.fail("handle/wrong-inode", format!("{} with a handle opened on inode {} was accepted for inode {} (answer {})", op, nodeid, other, rep.error));
+            }
+            let rep = self.send(out, &mkreq(if dir { "RELEASEDIR" } else { "RELEASE" }, other, 0, 0, &[("fh", fh)], &[], &[]));
+            if rep.error != -libc::EBADF {
+                out.fail("handle/wrong-inode-release", format!("release through the wrong inode answered {}", rep.error));
+            }
+        }
+    }
+
+    /// the client lets go of everything it holds: every handle released, every reference forgotten
+    pub fn release_everything(&mut self, out: &mut Outcome) {
+        for i in 0..self.handles.len() {
+            if self.handles[i].live {
+                self.release(out, i);
+            }
+        }
+        self.handles.clear();
+        let ids: Vec<(u64, u64)> = self.nodes.iter().filter(|(k, _)| **k != 1).map(|(k, v)| (*k, v.count)).collect();
+        for chunk in ids.chunks(7) {
+            if chunk.len() == 1 {
+                self.forget(out, chunk[0].0, chunk[0].1);
+            } else {
+                self.batch_forget(out, chunk);
+            }
+        }
+        self.forgotten.clear();
     }
 
     /// compare the exported tree with the shadow tree on the host
